@@ -128,7 +128,7 @@ def run_site(cfg, site, rec, tmp):
                              with_inherited_coords=mode.startswith("obs_dask"), entry="legacy" if legacy else "run_mode")
             stage = "legacy entry" if legacy else "run_mode"
         except Exception as exc:  # noqa: BLE001
-            raised, stage = exc, "run_mode"
+            raised, stage = exc, "legacy entry" if legacy else "run_mode"
     if raised is None and mode.startswith("obs_dask"):
         # the failure must surface at the latest when results are computed
         try:
